@@ -7,7 +7,9 @@ UNIT = dict(
         "idealised-real float mode for the reach product",
         "BLOCK: body of the loop over a decision node's actions in vanilla::thread_threshold (the breadth-first frontier expansion), free variables as parameters; every name of the enclosing scope the body could refer to is a parameter with an arbitrary value, so a body that stops initialising its reach vector per action is rejected",
         "PlayerNum::ind_mut two-case spec (Kani harness playernum_ind)",
+        "chance arm: the unit is the expression body of the closure handed to `.map` in `work.extend(info.next_nodes(chance).map(..))`; the chain itself (Vec::extend over Map over the ChanceRecurse iterator, which yields the outcomes the infoset enumerates or samples: C10) is std code pinned by an `expect` pattern",
     ],
+    expect=[("src/solve/vanilla.rs", r"Some\(\(Node::Chance\(chance\), p_chance, p_player\)\) => \{\s*let info = &chance_infosets\[chance\.infoset\];\s*work\.extend\(\s*info\.next_nodes\(chance\)\s*\.map\(\|\(prob, node\)\| [^|]*\),\s*\);\s*\}")],
     items=[
         dict(file="src/lib.rs", path="enum PlayerNum", attrs="#[derive(Copy, Clone)]"),
         dict(raw=open(P + "playernum.rs").read()),
@@ -33,5 +35,20 @@ UNIT = dict(
     final(work)@.last().0 == next && final(work)@.last().1 == p_chance, // @ob C06.V.thread_threshold.frontier_reach
     pnext_ok(player.num, p_player, *prob, final(work)@.last().2), // @ob C06.V.thread_threshold.frontier_reach""",
              entry="broadcast use fl; broadcast use ideal;\nproof { ax_obeys(); ax_rv_lits(); }"),
+        # chance arm of the frontier expansion: `work.extend(info.next_nodes(chance).map(F))`; F is an
+        # expression-bodied closure, extracted as a fn (the extend/map chain is std code, pinned textually)
+        dict(file="src/solve/vanilla.rs", path="fn thread_threshold", closure=0, expr_closure=True,
+             header_re=r"^\|\(prob, node\)\|$",
+             as_fn="thread_threshold__chance_outcome", generics="<'a>",
+             params="prob: &f64, node: &'a Node, p_chance: f64, p_player: [f64; 2]",
+             ret="out", ret_type="(&'a Node, f64, [f64; 2])",
+             obligation="C06.V.thread_threshold.frontier_reach_chance",
+             rules=[],
+             entry="broadcast use fl; broadcast use ideal;\nproof { ax_obeys(); ax_rv_lits(); }",
+             contract="""ensures
+    // a chance outcome enters the frontier with the chance reach of ITS path (parent reach x outcome
+    // probability) and unchanged player reaches
+    out.0 == node && out.2 == p_player, // @ob C06.V.thread_threshold.frontier_reach_chance
+    rv(out.1) == rv(p_chance) * rv(*prob), // @ob C06.V.thread_threshold.frontier_reach_chance"""),
     ],
 )
